@@ -22,7 +22,7 @@ META = {
     'technique': 'Lean 4 in-range (no index / slice panic) and fuel-adequacy theorems for the modelled parsers (+ engine-level confinement theorems, hooked in) '
                  'AND, as search support only, a seeded fixture-mutation fuzz loop over all 58 built-in filesystem extractors '
                  'run in-process under recover + 20 s watchdog + 512 MiB heap bound',
-    'design_ref': 'DESIGN.md §5 C02',
+    'design_ref': 'DESIGN.md §4 (section of C02), §5 (defects), §7 (seeded changes)',
     'text': 'PARTIAL (7 of 58 extractors modelled). Proved for the gradle.lockfile, Gemfile.lock, dpkg, requirements.txt, package-lock.json and Pipfile.lock models: every index and '
             'slice the Go code performs (parts[i], m[1], source[idx+2:len-1], l[:len(l)-1], Version[4:i], …) is in range on EVERY input — the models carry failing '
             'primitives (goIndex / goSliceI / goSlice) at those sites, so an unguarded index would break the proof; the apk parser has no such site (its totality is vacuous by '
